@@ -9,7 +9,7 @@ from . import histcheck
 
 LEVEL = "proof"
 PROFILES = [('REORDER', 4), ('BASIC', 1)]
-ORACLES = ['c02', 'c09']
+ORACLES = ['content', 'c02', 'c09']
 
 
 def run(ctx):
